@@ -196,10 +196,13 @@ type streamCfg struct {
 func RunStream(r *Run) {
 	c := r.C
 	huge := r.thorough() && c.Intn("hugestream", 60) == 0
+	giant := !huge && c.Intn("giantline", map[bool]int{true: 80, false: 700}[r.thorough()]) == 0
 	var stream []byte
 	var want []*MV
 	var desc string
-	if huge {
+	if giant {
+		stream, want, desc = genGiantLineStream(r)
+	} else if huge {
 		stream, want, desc = genHugeStream(r)
 	} else {
 		stream, want, desc = genStream(r)
@@ -216,6 +219,9 @@ func RunStream(r *Run) {
 	}
 	if huge {
 		sc.frag = []int{fragAll, fragGeo, fragLine}[c.Intn("fraghuge", 3)]
+	}
+	if giant {
+		sc.frag = []int{fragGeo, fragAll, fragLine, fragLineMinus}[c.Intn("fraggiant", 4)]
 	}
 	// fault plan
 	if c.Intn("fault", 3) == 0 {
@@ -272,6 +278,44 @@ func genHugeStream(r *Run) (stream []byte, docs []*MV, desc string) {
 		docs = append(docs, bdocs...)
 	}
 	return buf.Bytes(), docs, fmt.Sprintf("huge: %d x block of %d bytes = %d bytes", n, len(block), buf.Len())
+}
+
+// genGiantLineStream: one document longer than the 10 MiB chunk size (its line has to be completed after the first
+// Read of the chunk), between a few small ones.
+func genGiantLineStream(r *Run) (stream []byte, docs []*MV, desc string) {
+	c := r.C
+	var buf bytes.Buffer
+	small := func() {
+		d := GenDoc(c, DocSpec{Family: FamMixed, Target: 2 + c.Intn("ssz", 120), WS: 0, OneLine: true, MaxDepth: 3, StrMax: 30})
+		buf.Write(d.B)
+		buf.WriteByte('\n')
+	}
+	for i := 0; i < c.Intn("gpre", 3); i++ {
+		small()
+	}
+	// the giant: an array of one repeated element (cheap to generate and to check)
+	elem := GenDoc(c, DocSpec{Family: FamMixed, Target: 40 + c.Intn("gelem", 200), WS: 0, OneLine: true, MaxDepth: 3, StrMax: 30}).B
+	target := 10<<20 + 1 + c.Intn("gextra", 12<<20)
+	buf.WriteByte('[')
+	n := 0
+	start := buf.Len()
+	for buf.Len()-start < target {
+		if n > 0 {
+			buf.WriteByte(',')
+		}
+		buf.Write(elem)
+		n++
+	}
+	buf.WriteString("]\n")
+	for i := 0; i < c.Intn("gpost", 3); i++ {
+		small()
+	}
+	stream = buf.Bytes()
+	ref := RefParseND(stream)
+	if !ref.OK {
+		panic("harness: giant-line stream rejected by the reference parser: " + ref.Err)
+	}
+	return stream, ref.Roots, fmt.Sprintf("giant line: %d x %d-byte element, stream %d bytes", n, len(elem), len(stream))
 }
 
 // streamExec is one simulated execution of ParseNDStream.
